@@ -598,34 +598,56 @@ fn main() {
                     (r, Some(r))
                 }
             }
-            let w: u64 = match rng.below(8) {
+            let w: u64 = match rng.below(10) {
                 0 => 65_536,
                 1 => 46_341,
                 2 => 1 << rng.u32r(12, 20),
                 3 => rng.u32r(60_000, 70_000) as u64,
+                4 | 5 => rng.u32r(1, 1100) as u64,
+                6 => *rng.pick(&[255u64, 256, 257, 771, 1285, 4369, 21_845, 65_535, 65_537]),
                 _ => rng.u32r(300, 1 << 20) as u64,
             };
-            // offset of the first visible colour in the stream
-            let target: u64 = match rng.below(8) {
-                0 => (1u64 << 31) - rng.below(3 * w),
-                1 => (1u64 << 31) + rng.below(3 * w),
-                2 => (1u64 << 32) - rng.below(3 * w),
-                3 => (1u64 << 32) + rng.below(3 * w),
-                4 => rng.below(1 << 20),
-                5 => 1u64 << rng.u32r(20, 36),
-                _ => rng.below(1u64 << 36),
+            // offset of the first visible colour in the stream: around 2^31 and 2^32, random, or an
+            // *exact* special value - a multiple of 2^16 - 1, 2^16, 2^16 + 1, 255, 256, 32 767, 4096, a
+            // power of two or its neighbour (seeded `C03-13`: the skip applied in steps of 65 535 with
+            // quotient and remainder taken from different bases - wrong for exact multiples only)
+            let exact = rng.chance(1, 2);
+            let target: u64 = if exact {
+                let k = rng.u32r(1, 40) as u64;
+                match rng.below(10) {
+                    0 | 1 => k * 65_535,
+                    2 => k * 65_536,
+                    3 => k * 65_537,
+                    4 => k * *rng.pick(&[255u64, 256, 257, 4095, 4096, 32_767, 32_768]),
+                    5 => 1u64 << rng.u32r(8, 36),
+                    6 => (1u64 << rng.u32r(8, 36)) - 1,
+                    7 => (1u64 << rng.u32r(8, 36)) + 1,
+                    8 => k * 65_535 * 65_536,
+                    _ => (k * 65_535).wrapping_mul(rng.u32r(1, 70_000) as u64) & ((1 << 36) - 1),
+                }
+            } else {
+                match rng.below(8) {
+                    0 => (1u64 << 31) - rng.below(3 * w),
+                    1 => (1u64 << 31) + rng.below(3 * w),
+                    2 => (1u64 << 32) - rng.below(3 * w),
+                    3 => (1u64 << 32) + rng.below(3 * w),
+                    4 => rng.below(1 << 20),
+                    5 => 1u64 << rng.u32r(20, 36),
+                    _ => rng.below(1u64 << 36),
+                }
             };
             let rows_above = (target / w).min((1 << 20) as u64);
-            let cols_left = if w > 40 { rng.below(w - 20) } else { 0 };
+            // exact targets fix the column as well (when the window still fits into the area)
+            let cols_left = if exact && rows_above == target / w { target % w } else if w > 40 { rng.below(w - 20) } else { 0 };
             let (ax, ay) = (rng.i32r(-2000, 2000), rng.i32r(-2000, 2000));
             let (pw, ph) = (rng.u32r(1, 14), rng.u32r(1, 9));
-            let px0 = ax as i64 + cols_left as i64 + rng.i32r(-3, 3) as i64;
+            let px0 = ax as i64 + cols_left as i64 + if exact { 0 } else { rng.i32r(-3, 3) as i64 };
             let py0 = ay as i64 + rows_above as i64;
             let pbox = rect(px0 as i32, py0 as i32, pw, ph);
             let rows_below = rng.below(4) as i64 - 1; // -1: the area ends inside the window
             let ah = (rows_above as i64 + ph as i64 + rows_below).max(0) as u32;
             let area = rect(ax, ay, w as u32, ah);
-            let clip = match rng.below(3) {
+            let clip = match if exact { rng.below(2) * 2 } else { rng.below(3) } {
                 0 => pbox,
                 1 => rect(pbox.top_left.x + rng.i32r(-2, 3), pbox.top_left.y + rng.i32r(-2, 3), rng.u32r(0, pw + 3), rng.u32r(0, ph + 3)),
                 _ => rect(ax - 5, ay - 5, w as u32 + 10, ah + 10),
